@@ -6,6 +6,7 @@ CONSTANTS
   MainPosFix = FALSE
   CacheFaithful = TRUE
   LastBlockWins = TRUE
+  AppendInPlace = TRUE
   DupBodies = TRUE
   DupBlocks = FALSE
   DepOverlap = FALSE
